@@ -374,7 +374,8 @@ func (m *ldbManager) Add(transaction Transaction) error {
 	m.changes.Lock()
 	defer m.changes.Unlock()
 
-	frontierIdentifier := GetFrontierIdentifier(db)
+	// compare with the real frontier: db is the view of previous, which always reports previous
+	frontierIdentifier := GetFrontierIdentifier(NewLevelDBWrapper(m.ldb).Subset(frontierByte))
 
 	if previous == frontierIdentifier {
 		// one atomic write: the redo and undo entries and every key of the patch
